@@ -82,7 +82,7 @@ def scale_xyz(mesh : Mesh, fx : float = 1., fy : float = 1., fz : float = 1., or
         orig = Vec.zeros(3)
     for i in mesh.id_vertices:
         Pi = mesh.vertices[i]
-        mesh.vertices[i] = orig + Vec( fx*(Pi.x - orig.x), fy*(Pi.y - orig.y), fz *(Pi.z - orig.z))
+        mesh.vertices[i] = orig + Vec( fx*(Pi[0] - orig[0]), fy*(Pi[1] - orig[1]), fz *(Pi[2] - orig[2])) # by index: a stored vertex may be a plain array
     return mesh
 
 
